@@ -411,29 +411,95 @@ def b64Decode (s : Bytes) : Res Bytes :=
     | none => .err .other
     | some bs => .ok bs
 
+/-! ## time.Time as an instant -/
+
+/-- a `time.Time` seen as an instant: unix seconds and the nanoseconds within the second -/
+structure Time where
+  sec : Int
+  nsec : Nat
+deriving DecidableEq, Repr
+
+/-- `time.Time{}` (January 1, year 1) -/
+def Time.zero : Time := ⟨-62135596800, 0⟩
+
+/-- two's-complement wrap of an integer into int64 -/
+def wrapI64 (x : Int) : Int := (x + 2 ^ 63) % 2 ^ 64 - 2 ^ 63
+
+/-- `t.UnixNano()`: int64 arithmetic, so it wraps outside 1678…2262 -/
+def Time.unixNano (t : Time) : Int := wrapI64 (t.sec * 1000000000 + t.nsec)
+
+/-- the instant is representable as int64 nanoseconds -/
+def Time.FitsNano (t : Time) : Prop := -(2 ^ 63 : Int) ≤ t.sec * 1000000000 + t.nsec ∧ t.sec * 1000000000 + (t.nsec : Int) < 2 ^ 63
+instance (t : Time) : Decidable t.FitsNano := by unfold Time.FitsNano; exact inferInstance
+
+/-- `time.Unix(sec, nsec)` (normalises nsec into [0, 1e9)) -/
+def timeUnix (sec nsec : Int) : Time := ⟨sec + nsec / 1000000000, (nsec % 1000000000).toNat⟩
+
+def mapRes {α β : Type} (f : α → β) : Res α → Res β
+  | .ok v => .ok (f v)
+  | .err e => .err e
+  | .panic => .panic
+
+/-- JsNanoTime / JsUnixTime on instants -/
+def encodeNanoTime (t : Time) : Bytes := encodeInt t.unixNano
+def decodeNanoTime (w : Wrap) (b : Bytes) : Res Time := mapRes (timeUnix 0) (decodeInt w b)
+def encodeUnixTime (t : Time) : Bytes := encodeInt t.sec
+def decodeUnixTime (w : Wrap) (b : Bytes) : Res Time := mapRes (fun v => timeUnix v 0) (decodeInt w b)
+
 /-! ## SQL forms -/
 
-/-- dynamic values a driver hands to `Scan` -/
+/-- dynamic values a driver hands to `Scan` (driver.Value kinds plus the integer kinds the code switches on) -/
 inductive SqlVal
   | i32 (v : Int) | u32 (v : Nat) | i64 (v : Int) | u64 (v : Nat) | int (v : Int) | uint (v : Nat)
-  | time (unixSec : Int)
-  | other
+  | f64 (whole : Int) | bool (b : Bool) | bytes (s : Bytes) | str (s : Bytes)
+  | time (t : Time)
+  | null
 deriving DecidableEq, Repr
 
 /-- `int64(v)` of a uint64 -/
 def wrap64 (v : Nat) : Int := if v % 2 ^ 64 < 2 ^ 63 then (v % 2 ^ 64 : Nat) else ((v % 2 ^ 64 : Nat) : Int) - 2 ^ 64
 
-/-- the `ts` computed by the type switch of `UnixNano2Time.Scan` / `Unix2Time.Scan` (unsupported ⇒ 0, no error) -/
-def scanTs : SqlVal → Int
-  | .i32 v | .i64 v | .int v => v
-  | .u32 v => v
-  | .u64 v | .uint v => wrap64 v
-  | _ => 0
+/-- how `UnixNano2Time.Scan` / `Unix2Time.Scan` turn the dynamic value into `ts` -/
+inductive ScanShape
+  | legacy   -- a type switch over six integer kinds without default: everything else is 0 with a nil error, uint64 wraps
+  | strict   -- `scanInt64`: integers in range, decimal text parsed exactly, nil ⇒ 0, anything else an error
+  | unknown
+deriving DecidableEq, Repr
 
-/-- `UnixStamp.Scan` / `SQLTime2Unix.Scan`: a `time.Time` sets the stamp, anything else leaves it -/
-def scanStamp (old : Int) : SqlVal → Int
-  | .time s => s
-  | _ => old
+def scanInt (sh : ScanShape) (v : SqlVal) : Res Int :=
+  match sh with
+  | .legacy =>
+    match v with
+    | .i32 x | .i64 x | .int x => .ok x
+    | .u32 x => .ok x
+    | .u64 x | .uint x => .ok (wrap64 x)
+    | _ => .ok 0
+  | .strict =>
+    match v with
+    | .null => .ok 0
+    | .i32 x | .i64 x | .int x => .ok x
+    | .u32 x => .ok x
+    | .u64 x | .uint x => if 2 ^ 63 ≤ x then .err .other else .ok x
+    | .bytes s | .str s => parseInt 10 64 s
+    | _ => .err .other
+  | .unknown => .err .other
+
+/-- `UnixNano2Time.Scan` / `Unix2Time.Scan` -/
+def scanNano (sh : ScanShape) (v : SqlVal) : Res Time := mapRes (timeUnix 0) (scanInt sh v)
+def scanUnix (sh : ScanShape) (v : SqlVal) : Res Time := mapRes (fun ts => timeUnix ts 0) (scanInt sh v)
+
+/-- `UnixStamp.Scan` / `SQLTime2Unix.Scan` -/
+inductive StampScan
+  | legacy   -- `if t, ok := value.(time.Time); ok { … }`: anything else is ignored with a nil error
+  | strict   -- nil keeps the value, a time sets it, anything else is an error
+  | unknown
+deriving DecidableEq, Repr
+
+def scanStamp (sh : StampScan) (old : Int) (v : SqlVal) : Res Int :=
+  match sh with
+  | .legacy => match v with | .time t => .ok t.sec | _ => .ok old
+  | .strict => match v with | .time t => .ok t.sec | .null => .ok old | _ => .err .other
+  | .unknown => .err .other
 
 /-! ## configuration regenerated from the source -/
 
@@ -446,6 +512,8 @@ structure Cfg where
   stamp : Wrap
   dur : Wrap
   byteConv : ByteConv
+  scanInt : ScanShape
+  scanStamp : StampScan
 deriving DecidableEq, Repr
 
 /-- facts the model is written against (compared with `expected` in the tie) -/
@@ -456,17 +524,21 @@ structure Facts where
   byteSplitSlash : Bool         -- FromString: empty ⇒ nil; strings.Split(s, "/"); Atoi per element
   hexBases : Bool               -- I64Hex/U64Hex/HexI64/HexU64 base 16, …V2 base 32, bitSize 64
   base64RawStd : Bool           -- Base64Bytes uses base64.RawStdEncoding both ways
-  sqlScanValue : Bool           -- Scan switches / Value bodies as modelled
+  sqlScanValue : Bool           -- Value bodies and what Scan does with `ts` (time.Unix(0, ts) / time.Unix(ts, 0) / t.Unix())
+  durToml : Bool                -- Duration.UnmarshalTOML: non-string ⇒ ErrInvalidDuration, else time.ParseDuration(s)
+  durGetter : Bool              -- Duration.Duration() is `time.Duration(i)`
+  byteToString : Bool           -- JsByte.ToString is splitBuilder().String()
 deriving DecidableEq, Repr
 
-def Facts.expected : Facts := ⟨true, true, true, true, true, true, true⟩
+def Facts.expected : Facts := ⟨true, true, true, true, true, true, true, true, true, true⟩
 
 def Wrap.Checked (w : Wrap) : Prop := w.kind = .checkedBare ∨ w.kind = .checkedOnly
 instance (w : Wrap) : Decidable w.Checked := by unfold Wrap.Checked; exact inferInstance
 
 /-- configurations for which the property theorems are proved: every wrapper looks at the quotes
     before slicing, calls the expected parser, its length guard does not reject the shortest
-    encoder output, and JsByte range-checks its elements -/
+    encoder output, JsByte range-checks its elements, the SQL scanners refuse what they cannot convert, and the empty input is
+    rejected before any byte is indexed -/
 def Proved (c : Cfg) : Prop :=
   c.i64.Checked ∧ c.u64.Checked ∧ c.byte.Checked ∧ c.unixTime.Checked ∧ c.nanoTime.Checked ∧
   c.stamp.Checked ∧ c.dur.Checked ∧
@@ -474,7 +546,9 @@ def Proved (c : Cfg) : Prop :=
   c.unixTime.parser = .atoi ∧ c.nanoTime.parser = .atoi ∧ c.stamp.parser = .atoi ∧
   c.dur.parser = .parseDuration ∧ c.byteConv = .rangeChecked ∧
   c.i64.minLen ≤ 3 ∧ c.u64.minLen ≤ 3 ∧ c.unixTime.minLen ≤ 3 ∧ c.nanoTime.minLen ≤ 3 ∧ c.stamp.minLen ≤ 3 ∧
-  c.byte.minLen ≤ 2 ∧ c.dur.minLen ≤ 4
+  c.byte.minLen ≤ 2 ∧ c.dur.minLen ≤ 4 ∧
+  c.scanInt = .strict ∧ c.scanStamp = .strict ∧
+  1 ≤ c.i64.minLen ∧ 1 ≤ c.u64.minLen ∧ 1 ≤ c.unixTime.minLen ∧ 1 ≤ c.nanoTime.minLen ∧ 1 ≤ c.stamp.minLen
 instance : DecidablePred Proved := fun c => by unfold Proved; exact inferInstance
 
 /-- today's tree (before the repairs) -/
@@ -482,13 +556,13 @@ def Cfg.today : Cfg :=
   { i64 := ⟨.checkedBare, 1, true, .atoi⟩, u64 := ⟨.unconditional, 3, false, .parseUint64⟩,
     byte := ⟨.unconditional, 2, false, .fromString⟩, unixTime := ⟨.unconditional, 3, false, .atoi⟩,
     nanoTime := ⟨.unconditional, 3, false, .atoi⟩, stamp := ⟨.unconditional, 3, false, .atoi⟩,
-    dur := ⟨.unconditional, 3, false, .parseDuration⟩, byteConv := .wrap }
+    dur := ⟨.unconditional, 3, false, .parseDuration⟩, byteConv := .wrap, scanInt := .legacy, scanStamp := .legacy }
 
 /-- the repaired tree -/
 def Cfg.repaired : Cfg :=
   { i64 := ⟨.checkedBare, 1, true, .atoi⟩, u64 := ⟨.checkedOnly, 3, false, .parseUint64⟩,
     byte := ⟨.checkedOnly, 2, false, .fromString⟩, unixTime := ⟨.checkedOnly, 3, false, .atoi⟩,
     nanoTime := ⟨.checkedOnly, 3, false, .atoi⟩, stamp := ⟨.checkedOnly, 3, false, .atoi⟩,
-    dur := ⟨.checkedOnly, 3, false, .parseDuration⟩, byteConv := .rangeChecked }
+    dur := ⟨.checkedOnly, 3, false, .parseDuration⟩, byteConv := .rangeChecked, scanInt := .strict, scanStamp := .strict }
 
 end Nv.C20
